@@ -47,10 +47,15 @@ def rank2(kinds, omset=0, kT=1.0, dom='128x0.1', rho=None, diam=None):
 R3_KINDS = ['PY+HS', 'HNChc+HCLJ', 'PY+EXP', 'MSAhc+EXP']
 
 
-def rank3(kinds6, kT=1.0, dom='128x0.1'):
+def rank3(kinds6, kT=1.0, dom='128x0.1', omset=0):
     types = ['A', 'B', 'C']
     pairs = build.pairs_of(types)           # AA AB AC BB BC CC
-    om = {'A|A': ['Gaussian', {'sigma': 1.0, 'length': 4}], 'B|B': ['SingleSite', {}], 'C|C': ['FJC', {'length': 3, 'l': 1.0}]}
+    if omset == 0:
+        om = {'A|A': ['Gaussian', {'sigma': 1.0, 'length': 4}], 'B|B': ['SingleSite', {}], 'C|C': ['FJC', {'length': 3, 'l': 1.0}]}
+    else:
+        # A and B are the two blocks of one chain (non-zero cross omega), C is a third species
+        om = {'A|A': ['GaussBlockDiag', {'block': 3, 'sigma': 1.0}], 'A|B': ['GaussBlockCross', {'Na': 3, 'Nb': 4, 'sigma': 1.0}],
+              'B|B': ['GaussBlockDiag', {'block': 4, 'sigma': 1.0}], 'C|C': ['SingleSite', {}]}
     spec = {'types': types, 'kT': kT, 'domain': dict(DOMAINS[dom]), 'density': {'A': 0.15, 'B': 0.2, 'C': 0.1},
             'diameter': {'A': 1.0, 'B': 1.2, 'C': 0.8}, 'pairs': {}}
     for (a, b), kd in zip(pairs, kinds6):
